@@ -100,6 +100,9 @@ class UbxParser(object):
         if d == UbxFrame.SYNC_2:
             self._reset()
             self.state = __class__.State.CLASS
+        elif d == UbxFrame.SYNC_1:
+            # Repeated first sync char: this one may start the frame, keep waiting for SYNC_2
+            pass
         else:
             self.state = __class__.State.INIT
 
